@@ -213,9 +213,10 @@ pub fn gen_est(nprob: usize, only: Option<&str>, out: &mut Out) {
     for k in 0..nprob {
         let pr = make_problem(k);
         for name in NAMES.iter() {
-            // the interior-point solvers hang on one back end (known finding): each hang costs a
-            // full watchdog period, so they are run on the first problems only
-            if (*name == "lasso" || *name == "elastic_net") && k >= (if vutil::thorough() { 3 } else { 1 }) {
+            // the interior-point solvers used to hang on one back end (nalgebra max folded from 0, repaired by
+            // bf8c8ce): a hang costs a full watchdog period per back end, so a regression of that kind is
+            // looked for on the first problems only in the quick tier
+            if (*name == "lasso" || *name == "elastic_net") && k >= (if vutil::thorough() { 1000 } else { 3 }) {
                 continue;
             }
             if let Some(f) = only {
